@@ -124,7 +124,7 @@ def run(ctx):
         root = os.path.join(forest.dir, b"r")
         os.mkdir(root)
         paths = [b"r"]
-        names = [b"a", b"b", b"ab", b"ba", b"aa", b"abc", b"c", b"aab", b"abab", b"A", b"aB", b"bbb", b"cab"]
+        names = [b"a", b"b", b"ab", b"ba", b"aa", b"abc", b"c", b"aab", b"abab", b"A", b"aB", b"bbb", b"cab", b"bc", b"bb", b"aac"]
         for n in names:
             os.mkdir(os.path.join(root, n))
             paths.append(b"r/" + n)
@@ -136,6 +136,13 @@ def run(ctx):
         n = 6000 if ctx.thorough else 500
         while len(cases) < n:
             body = gen_ast(rng, rng.choice([1, 2, 3, 4]))
+            if rng.random() < 0.12:
+                # no alternation at all, but a greedy optional piece followed by an optional group that overlaps it: the first match found
+                # stops short (b?(bc)? on "bc", a*(ab)* on "aab") unless the engine is made to backtrack to the end of the path
+                x, y = rng.choice("ab"), rng.choice("abc")
+                first = rng.choice([("O", ("c", x)), ("S", ("c", x)), ("I", 0, 2, ("c", x))])
+                second = rng.choice([("O", ("C", ("c", x), ("c", y))), ("S", ("C", ("c", x), ("c", y))), ("I", 0, 2, ("C", ("c", x), ("c", y)))])
+                body = ("C", first, second)
             # patterns must match whole paths: give most of them a leading r/ or .*/
             lead = rng.choice(["r/", ".*/", ".*", ""])
             ast = body
